@@ -84,13 +84,25 @@ func (fp *FilePath) Write(b []byte) (n int, err error) {
 	return n, nil
 }
 
+// lastName returns the name of the folder the path leads to, resolved the way ReadPath resolves it: "." and ".."
+// items, and separators inside an item, are folded first.  ("Drop Box", ".") leads to the drop box, and the single
+// item "Uploads/../private" leads to "private", not to an upload folder.
+func (fp *FilePath) lastName() string {
+	var subPath string
+	for _, pathItem := range fp.Items {
+		subPath = filepath.Join("/", subPath, string(pathItem.Name))
+	}
+
+	return filepath.Base(subPath)
+}
+
 // IsDropbox checks if a FilePath matches the special drop box folder type
 func (fp *FilePath) IsDropbox() bool {
 	if fp.Len() == 0 {
 		return false
 	}
 
-	return strings.Contains(strings.ToLower(string(fp.Items[fp.Len()-1].Name)), "drop box")
+	return strings.Contains(strings.ToLower(fp.lastName()), "drop box")
 }
 
 func (fp *FilePath) IsUploadDir() bool {
@@ -98,7 +110,7 @@ func (fp *FilePath) IsUploadDir() bool {
 		return false
 	}
 
-	return strings.Contains(strings.ToLower(string(fp.Items[fp.Len()-1].Name)), "upload")
+	return strings.Contains(strings.ToLower(fp.lastName()), "upload")
 }
 
 func (fp *FilePath) Len() uint16 {
